@@ -168,7 +168,8 @@ Record rsession := mk_rsession {
   r_helo : bytes;          (* HELOSTR *)
   r_ip : bytes;            (* xmitstat.sremoteip, 16 bytes *)
   r_rcpts : list bytes;    (* the recipient list before this recipient *)
-  r_dns : list N           (* answers of ask_dnsa() in call order *)
+  r_dns : list N;          (* answers of ask_dnsa() in call order *)
+  r_t0 : Z                 (* *t on entry: what the previous filter left there *)
 }.
 
 Record fout := mk_fout {
@@ -450,6 +451,120 @@ Definition cb_nomail (s : rsession) (fs : fsys) : option fout :=
   end.
 
 (* ------------------------------------------------------------------------------------------------ *)
+(** * dnsbl.c *)
+
+Definition NAME_DNSBL : bytes := [100; 110; 115; 98; 108]%N.
+Definition NAME_WHITEDNSBL : bytes := [119; 104; 105; 116; 101; 100; 110; 115; 98; 108]%N.
+
+(** [log_by_j]: the "whitelisted by" log line names c[j] (GenFilters.DNSBL_LOG_WHITELIST_BY_J); with c[i] the line
+    reads behind the whitelist array when the blacklist index is larger than the whitelist is long *)
+Definition cb_dnsbl_gen (log_by_j : bool) (s : rsession) (fs : fsys) : option fout :=
+  let fnb := if r_ipv4 s then NAME_DNSBL else NAME_DNSBL ++ SUFFIX_V6 in
+  let fnw := if r_ipv4 s then NAME_WHITEDNSBL else NAME_WHITEDNSBL ++ SUFFIX_V6 in
+  let l := rbl_prefix_len (r_ipv4 s) (r_ip s) in
+  match userconf_get_buffer (r_userdir s) fs fnb CfDomainOrInherit true true with
+  | UCrash => None
+  | UErr => Some (plain s FError 0)
+  | UNone => Some (plain s FPassed 0)
+  | UList t a =>
+      let '(r, dns', calls) := check_rbl l a (r_dns s) 0 false 0 in
+      match r with
+      | RblNone => Some (mk_fout FPassed t [] (r_check2822 s) calls)
+      | RblAgain => Some (mk_fout FDeniedTemp t [] (r_check2822 s) calls)
+      | RblLocal => Some (mk_fout FError t [] (r_check2822 s) calls)
+      | RblHit i =>
+          let refuse calls' := Some (mk_fout FDeniedMsg t (REPLY_DNSBL ++ nth i a [] ++ [13; 10]%N) (r_check2822 s) calls') in
+          match userconf_get_buffer (r_userdir s) fs fnw CfDomainvalid false false with
+          | UCrash => None
+          | UErr => Some (mk_fout FError t [] (r_check2822 s) calls)
+          | UNone => refuse calls
+          | UList _ c =>
+              let '(r2, _, calls2) := check_rbl l c dns' 0 false calls in
+              match r2 with
+              | RblHit _ =>
+                  if log_by_j || Nat.leb i (length c) then Some (mk_fout FPassed t [] (r_check2822 s) calls2)
+                  else None                                   (* strlen() of whatever lies behind the array *)
+              | RblNone => refuse calls2
+              | RblAgain => Some (mk_fout FDeniedTemp t [] (r_check2822 s) calls2)
+              | RblLocal => Some (mk_fout FError t [] (r_check2822 s) calls2)
+              end
+          end
+      end
+  end.
+
+Definition cb_dnsbl := cb_dnsbl_gen DNSBL_LOG_WHITELIST_BY_J.
+
+(* ------------------------------------------------------------------------------------------------ *)
+(** * namebl.c *)
+
+Definition NAME_NAMEBL : bytes := [110; 97; 109; 101; 98; 108]%N.
+
+(** the strings [d] runs through: the domain, then what follows each of its dots *)
+Fixpoint tails_after_dot (l : bytes) : list bytes :=
+  match l with
+  | [] => []
+  | c :: r => if N.eqb c DOT_CH then r :: tails_after_dot r else tails_after_dot r
+  end.
+
+Inductive nblres := NblHit | NblLocal | NblGoOn (temp : bool).
+
+(** the inner [while (d != NULL)] loop for one list *)
+Fixpoint namebl_inner (alen : nat) (ds : list bytes) (dns : list N) (temp : bool) (calls : nat) : nblres * list N * nat :=
+  match ds with
+  | [] => (NblGoOn temp, dns, calls)
+  | d :: rest =>
+      if Nat.ltb (length d + alen) 256 then
+        let '(ans, dns') := match dns with [] => (0%N, []) | a :: x => (a, x) end in
+        if N.eqb ans DNS_LOCAL then (NblLocal, dns', S calls)
+        else if N.eqb ans DNS_TEMP then namebl_inner alen rest dns' true (S calls)
+        else if N.eqb ans DNS_PERM || N.eqb ans 0 || N.ltb 240 ans then namebl_inner alen rest dns' temp (S calls)
+        else (NblHit, dns', S calls)
+      else namebl_inner alen rest dns temp calls
+  end.
+
+(** the outer loop over the lists: (result, the list that hit) *)
+Fixpoint namebl_outer (a : list bytes) (ds : list bytes) (dns : list N) (temp : bool) (calls : nat)
+  : nblres * bytes * nat :=
+  match a with
+  | [] => (NblGoOn temp, [], calls)
+  | e :: rest =>
+      match namebl_inner (S (length e)) ds dns temp calls with
+      | (NblHit, _, c) => (NblHit, e, c)
+      | (NblLocal, _, c) => (NblLocal, e, c)
+      | (NblGoOn t', dns', c) => namebl_outer rest ds dns' t' c
+      end
+  end.
+
+(** [early]: blocktype[*t] is evaluated on entry (GenFilters.NAMEBL_BLOCKTYPE_ON_ENTRY); an index outside the
+    five-element array is undefined behaviour *)
+Definition cb_namebl_gen (early : bool) (s : rsession) (fs : fsys) : option fout :=
+  if early && negb ((0 <=? r_t0 s)%Z && (r_t0 s <? 5)%Z) then None else
+  match r_mailfrom s with
+  | [] => Some (plain s FPassed 0)
+  | mf =>
+      match userconf_get_buffer (r_userdir s) fs NAME_NAMEBL CfDomainOrInherit true true with
+      | UCrash => None
+      | UErr => Some (plain s FError 0)
+      | UNone => Some (plain s FPassed 0)
+      | UList t a =>
+          match from_first AT_SIGN mf with
+          | None => None                                        (* strchr() + 1 of a string without '@' *)
+          | Some at_dom =>
+              let dom := skipn 1 at_dom in
+              let '(r, hit, calls) := namebl_outer a (dom :: tails_after_dot dom) (r_dns s) false 0 in
+              match r with
+              | NblHit => Some (mk_fout FDeniedMsg t (REPLY_NAMEBL ++ hit ++ [13; 10]%N) (r_check2822 s) calls)
+              | NblLocal => Some (mk_fout FError t [] (r_check2822 s) calls)
+              | NblGoOn true => Some (mk_fout FDeniedTemp t [] (r_check2822 s) calls)
+              | NblGoOn false => Some (mk_fout FPassed t [] (r_check2822 s) calls)
+              end
+          end
+      end
+  end.
+
+Definition cb_namebl := cb_namebl_gen NAMEBL_BLOCKTYPE_ON_ENTRY.
+
+(* ------------------------------------------------------------------------------------------------ *)
 (** * One case of the rfilters engine *)
 
 Inductive rf_result :=
@@ -459,7 +574,9 @@ Inductive rf_result :=
 Definition ID_BADCC : N := 0%N.
 Definition ID_BADMAILFROM : N := 1%N.
 Definition ID_CHECK2822 : N := 3%N.
+Definition ID_DNSBL : N := 4%N.
 Definition ID_FORCEESMTP : N := 5%N.
+Definition ID_NAMEBL : N := 9%N.
 Definition ID_HELO : N := 7%N.
 Definition ID_IPBL : N := 8%N.
 Definition ID_NOMAIL : N := 10%N.
@@ -514,6 +631,8 @@ Definition run_filter (id : N) (s : rsession) (fs : fsys) (uc dc gc : list bytes
   else if N.eqb id ID_FORCEESMTP then Some (cb_forceesmtp s fs)
   else if N.eqb id ID_BADCC then Some (cb_badcc s fs)
   else if N.eqb id ID_NOMAIL then Some (cb_nomail s fs)
+  else if N.eqb id ID_DNSBL then Some (cb_dnsbl s fs)
+  else if N.eqb id ID_NAMEBL then Some (cb_namebl s fs)
   else None.
 
 Definition rf_case (id : N) (misc mailfrom helo ip rcpts dns : bytes) (files : list bytes) : rf_result :=
@@ -521,6 +640,7 @@ Definition rf_case (id : N) (misc mailfrom helo ip rcpts dns : bytes) (files : l
   let userdir := N.testbit (m 0) 0 in
   if has_nul mailfrom || has_nul helo || has_nul rcpts || negb (Nat.eqb (length ip) 16)
      || match helo with [] => true | _ => false end || Nat.ltb 60 (length files)
+     || (N.ltb 4 (m 4) && negb (N.eqb (m 4) 234))
   then RBadCase else
   match decode_files userdir files with
   | None => RBadCase
@@ -531,7 +651,8 @@ Definition rf_case (id : N) (misc mailfrom helo ip rcpts dns : bytes) (files : l
           match (if userdir then conf_of fs 0 else Some []), conf_of fs 1 with
           | Some uc, Some dc =>
               let s := mk_rsession userdir (N.testbit (m 0) 1) (N.testbit (m 0) 2) (N.testbit (m 0) 3) (N.testbit (m 0) 4)
-                                   (N.land (m 1) 7) (N.land (m 2) 3) mailfrom helo ip (split_lf rcpts []) dns in
+                                   (N.land (m 1) 7) (N.land (m 2) 3) mailfrom helo ip (split_lf rcpts []) dns
+                                   (if N.eqb (m 4) 234 then (-22)%Z else Z.of_N (m 4)) in
               match run_filter id s fs uc dc gc with
               | None => RBadCase
               | Some None => RCrash
